@@ -16,295 +16,345 @@ Proof.
   intros x l. rewrite <- mem_In. destruct (mem x l); split; intro H; congruence.
 Qed.
 
+Lemma emem_In : forall e l, emem e l = true <-> In e l.
+Proof.
+  intros [a b] l. unfold emem. rewrite existsb_exists. split.
+  - intros [[c d] [Hy Hxy]]. cbn [fst snd] in Hxy. apply andb_true_iff in Hxy.
+    destruct Hxy as [H1 H2]. apply Nat.eqb_eq in H1. apply Nat.eqb_eq in H2.
+    subst c d. exact Hy.
+  - intros H. exists (a, b). split; [exact H|]. cbn [fst snd].
+    rewrite !Nat.eqb_refl. reflexivity.
+Qed.
+
+Lemma emem_false : forall e l, emem e l = false <-> ~ In e l.
+Proof.
+  intros e l. rewrite <- emem_In. destruct (emem e l); split; intro H; congruence.
+Qed.
+
 Lemma dedup_In : forall x l, In x (dedup l) <-> In x l.
 Proof. intros x l. unfold dedup. apply nodup_In. Qed.
 
-Lemma enqueue_queue : forall cs q ex x,
-  In x (fst (enqueue cs q ex)) <-> In x q \/ (In (Some x) cs /\ ~ In x ex).
+(* the nodes added to [visited] by one enqueue pass: the children reached by a non-excluded edge *)
+Lemma enqueue_visited : forall cs ex q vis x,
+  In x (snd (enqueue cs ex q vis)) <->
+  In x vis \/ exists k, In (Some (x, k)) cs /\ ~ In (x, k) ex.
 Proof.
-  induction cs as [|[c|] cs IH]; intros q ex x; simpl.
-  - split.
+  induction cs as [|[[c k]|] cs IH]; intros ex q vis x; cbn [enqueue].
+  - cbn [snd]. split.
     + intro H. left. exact H.
-    + intros [H|[[] _]]. exact H.
-  - destruct (mem c ex) eqn:Hm.
-    + rewrite IH. apply mem_In in Hm. split.
-      * intros [H|[H1 H2]].
+    + intros [H|[k [[] _]]]. exact H.
+  - destruct (emem (c, k) ex || mem c vis) eqn:Hb.
+    + rewrite IH. split.
+      * intros [H|[k' [H1 H2]]].
         -- left. exact H.
-        -- right. split; [right; exact H1 | exact H2].
-      * intros [H|[[H1|H1] H2]].
+        -- right. exists k'. split; [right; exact H1 | exact H2].
+      * intros [H|[k' [[H1|H1] H2]]].
         -- left. exact H.
-        -- injection H1 as H1. subst x. contradiction.
-        -- right. split; assumption.
-    + rewrite IH. apply mem_false in Hm. rewrite in_app_iff. simpl. split.
-      * intros [[H|[H|[]]]|[H1 H2]].
+        -- injection H1 as H1 H1'. subst c k'. apply orb_true_iff in Hb.
+           destruct Hb as [Hb|Hb].
+           ++ apply emem_In in Hb. contradiction.
+           ++ apply mem_In in Hb. left. exact Hb.
+        -- right. exists k'. split; assumption.
+    + apply orb_false_iff in Hb. destruct Hb as [He Hm].
+      apply emem_false in He. apply mem_false in Hm.
+      rewrite IH. split.
+      * intros [[H|H]|[k' [H1 H2]]].
+        -- subst x. right. exists k. split; [left; reflexivity | exact He].
         -- left. exact H.
-        -- subst x. right. split; [left; reflexivity | exact Hm].
-        -- right. split; [right; exact H1 | intro H3; apply H2; right; exact H3].
-      * intros [H|[[H1|H1] H2]].
-        -- left. left. exact H.
-        -- injection H1 as H1. left. right. left. exact H1.
-        -- destruct (Nat.eq_dec c x) as [He|He].
-           ++ left. right. left. exact He.
-           ++ right. split; [exact H1 | intros [H3|H3]; [exact (He H3) | exact (H2 H3)]].
+        -- right. exists k'. split; [right; exact H1 | exact H2].
+      * intros [H|[k' [[H1|H1] H2]]].
+        -- left. right. exact H.
+        -- injection H1 as H1 H1'. left. left. exact H1.
+        -- right. exists k'. split; assumption.
   - rewrite IH. split.
-    + intros [H|[H1 H2]].
+    + intros [H|[k' [H1 H2]]].
       * left. exact H.
-      * right. split; [right; exact H1 | exact H2].
-    + intros [H|[[H1|H1] H2]].
+      * right. exists k'. split; [right; exact H1 | exact H2].
+    + intros [H|[k' [[H1|H1] H2]]].
       * left. exact H.
       * discriminate H1.
-      * right. split; assumption.
+      * right. exists k'. split; assumption.
 Qed.
 
-Lemma enqueue_excl : forall cs q ex x,
-  In x (snd (enqueue cs q ex)) <-> In x ex \/ In (Some x) cs.
+(* the nodes appended to the queue: those children that were not yet visited *)
+Lemma enqueue_queue : forall cs ex q vis x,
+  In x (fst (enqueue cs ex q vis)) <->
+  In x q \/ (~ In x vis /\ exists k, In (Some (x, k)) cs /\ ~ In (x, k) ex).
 Proof.
-  induction cs as [|[c|] cs IH]; intros q ex x; simpl.
-  - split.
+  induction cs as [|[[c k]|] cs IH]; intros ex q vis x; cbn [enqueue].
+  - cbn [fst]. split.
     + intro H. left. exact H.
-    + intros [H|[]]. exact H.
-  - destruct (mem c ex) eqn:Hm.
-    + rewrite IH. apply mem_In in Hm. split.
-      * intros [H|H]; [left; exact H | right; right; exact H].
-      * intros [H|[H|H]].
+    + intros [H|[_ [k [[] _]]]]. exact H.
+  - destruct (emem (c, k) ex || mem c vis) eqn:Hb.
+    + rewrite IH. split.
+      * intros [H|[Hv [k' [H1 H2]]]].
         -- left. exact H.
-        -- injection H as H. subst x. left. exact Hm.
-        -- right. exact H.
-    + rewrite IH. simpl. split.
-      * intros [[H|H]|H].
-        -- subst x. right. left. reflexivity.
+        -- right. split; [exact Hv|]. exists k'. split; [right; exact H1 | exact H2].
+      * intros [H|[Hv [k' [[H1|H1] H2]]]].
         -- left. exact H.
-        -- right. right. exact H.
-      * intros [H|[H|H]].
-        -- left. right. exact H.
-        -- injection H as H. left. left. exact H.
-        -- right. exact H.
+        -- exfalso. injection H1 as H1 H1'. subst c k'. apply orb_true_iff in Hb.
+           destruct Hb as [Hb|Hb].
+           ++ apply emem_In in Hb. contradiction.
+           ++ apply mem_In in Hb. contradiction.
+        -- right. split; [exact Hv|]. exists k'. split; assumption.
+    + apply orb_false_iff in Hb. destruct Hb as [He Hm].
+      apply emem_false in He. apply mem_false in Hm.
+      rewrite IH. rewrite in_app_iff. split.
+      * intros [[H|[H|[]]]|[Hv [k' [H1 H2]]]].
+        -- left. exact H.
+        -- subst x. right. split; [exact Hm|]. exists k. split; [left; reflexivity | exact He].
+        -- right. split.
+           ++ intro H3. apply Hv. right. exact H3.
+           ++ exists k'. split; [right; exact H1 | exact H2].
+      * intros [H|[Hv [k' [[H1|H1] H2]]]].
+        -- left. left. exact H.
+        -- injection H1 as H1 H1'. left. right. left. exact H1.
+        -- destruct (Nat.eq_dec c x) as [Hcx|Hcx].
+           ++ left. right. left. exact Hcx.
+           ++ right. split.
+              ** intros [H3|H3]; [exact (Hcx H3) | exact (Hv H3)].
+              ** exists k'. split; assumption.
   - rewrite IH. split.
-    + intros [H|H]; [left; exact H | right; right; exact H].
-    + intros [H|[H|H]].
+    + intros [H|[Hv [k' [H1 H2]]]].
       * left. exact H.
-      * discriminate H.
-      * right. exact H.
+      * right. split; [exact Hv|]. exists k'. split; [right; exact H1 | exact H2].
+    + intros [H|[Hv [k' [[H1|H1] H2]]]].
+      * left. exact H.
+      * discriminate H1.
+      * right. split; [exact Hv|]. exists k'. split; assumption.
 Qed.
 
-(* number of nodes of [nodes] not yet in the excluded set *)
-Definition cnt (ex nodes : list nid) : nat :=
-  length (filter (fun x => negb (mem x ex)) nodes).
-
-Lemma filter_length_le' : forall (f : nat -> bool) l, length (filter f l) <= length l.
+(* the root nodes the walk starts from *)
+Lemma start_queue_In : forall roots excl x,
+  In x (start_queue roots excl) <-> exists k, In (x, k) roots /\ ~ In (x, k) excl.
 Proof.
-  intros f l. induction l as [|a l IH]; simpl.
-  - lia.
-  - destruct (f a); simpl; lia.
+  intros roots excl x. unfold start_queue. rewrite dedup_In. rewrite in_map_iff. split.
+  - intros [[r k] [Hx Hf]]. cbn [fst] in Hx. subst r. apply filter_In in Hf.
+    destruct Hf as [Hr Hn]. apply negb_true_iff in Hn. apply emem_false in Hn.
+    exists k. split; assumption.
+  - intros [k [Hr Hn]]. exists (x, k). split; [reflexivity|]. apply filter_In.
+    split; [exact Hr|]. apply negb_true_iff. apply emem_false. exact Hn.
 Qed.
 
-Lemma dedup_length_le : forall l, length (dedup l) <= length l.
+Lemma start_queue_NoDup : forall roots excl, NoDup (start_queue roots excl).
+Proof. intros roots excl. unfold start_queue, dedup. apply NoDup_nodup. Qed.
+
+(* number of nodes of [nodes] not yet visited *)
+Definition cnt (vis nodes : list nid) : nat :=
+  length (filter (fun x => negb (mem x vis)) nodes).
+
+Lemma cnt_nil : forall nodes, cnt [] nodes = length nodes.
 Proof.
-  intros l. unfold dedup. induction l as [|a l IH]; simpl.
-  - lia.
-  - destruct (in_dec Nat.eq_dec a l); simpl; lia.
+  intros nodes. unfold cnt. induction nodes as [|a nodes IH].
+  - reflexivity.
+  - simpl. simpl in IH. rewrite IH. reflexivity.
 Qed.
 
-Lemma cnt_cons_notin : forall c ex nodes,
-  ~ In c nodes -> cnt (c :: ex) nodes = cnt ex nodes.
+Lemma cnt_cons_notin : forall c vis nodes,
+  ~ In c nodes -> cnt (c :: vis) nodes = cnt vis nodes.
 Proof.
-  intros c ex nodes. unfold cnt. induction nodes as [|a nodes IH]; intros Hc; simpl.
+  intros c vis nodes. unfold cnt. induction nodes as [|a nodes IH]; intros Hc; simpl.
   - reflexivity.
   - assert (Hac : Nat.eqb a c = false).
     { apply Nat.eqb_neq. intro He. apply Hc. left. exact He. }
     rewrite Hac. simpl.
     assert (Hc' : ~ In c nodes). { intro H. apply Hc. right. exact H. }
     specialize (IH Hc'). simpl in IH.
-    destruct (mem a ex); simpl; rewrite IH; reflexivity.
+    destruct (mem a vis); simpl; rewrite IH; reflexivity.
 Qed.
 
-Lemma cnt_cons_in : forall c ex nodes,
-  NoDup nodes -> In c nodes -> ~ In c ex -> S (cnt (c :: ex) nodes) = cnt ex nodes.
+Lemma cnt_cons_in : forall c vis nodes,
+  NoDup nodes -> In c nodes -> ~ In c vis -> S (cnt (c :: vis) nodes) = cnt vis nodes.
 Proof.
-  intros c ex nodes Hnd. induction Hnd as [|a nodes Ha Hnd IH]; intros Hc Hex.
+  intros c vis nodes Hnd. induction Hnd as [|a nodes Ha Hnd IH]; intros Hc Hex.
   - destruct Hc.
   - destruct (Nat.eq_dec a c) as [He|He].
-    + subst a. pose proof (cnt_cons_notin c ex nodes Ha) as Hn.
+    + subst a. pose proof (cnt_cons_notin c vis nodes Ha) as Hn.
       unfold cnt in *. simpl. rewrite Nat.eqb_refl. simpl.
       apply mem_false in Hex. rewrite Hex. simpl. simpl in Hn. rewrite Hn. reflexivity.
     + destruct Hc as [Hc|Hc]; [contradiction|].
       specialize (IH Hc Hex). unfold cnt in *. simpl.
       apply Nat.eqb_neq in He. rewrite He. simpl. simpl in IH.
-      destruct (mem a ex); simpl; rewrite <- IH; reflexivity.
+      destruct (mem a vis); simpl; rewrite <- IH; reflexivity.
 Qed.
 
-Lemma enqueue_measure : forall nodes, NoDup nodes ->
-  forall cs q ex,
-  (forall c, In (Some c) cs -> In c nodes) ->
-  length (fst (enqueue cs q ex)) + cnt (snd (enqueue cs q ex)) nodes
-  = length q + cnt ex nodes.
+(* a duplicate-free sublist of [nodes] and the nodes outside it partition [nodes] *)
+Lemma cnt_init : forall nodes, NoDup nodes ->
+  forall q, NoDup q -> (forall x, In x q -> In x nodes) ->
+  length q + cnt q nodes = length nodes.
 Proof.
-  intros nodes Hnd. induction cs as [|[c|] cs IH]; intros q ex Hcs; simpl.
+  intros nodes Hnd q Hq. induction Hq as [|c q Hc Hq IH]; intros Hsub.
+  - rewrite cnt_nil. reflexivity.
+  - assert (Hsub' : forall x, In x q -> In x nodes).
+    { intros x Hx. apply Hsub. right. exact Hx. }
+    specialize (IH Hsub').
+    pose proof (cnt_cons_in c q nodes Hnd (Hsub c (or_introl eq_refl)) Hc) as Hk.
+    cbn [length]. lia.
+Qed.
+
+(* every node appended to the queue is a node that becomes visited: the measure is preserved *)
+Lemma enqueue_measure : forall nodes, NoDup nodes ->
+  forall cs ex q vis,
+  (forall c k, In (Some (c, k)) cs -> In c nodes) ->
+  length (fst (enqueue cs ex q vis)) + cnt (snd (enqueue cs ex q vis)) nodes
+  = length q + cnt vis nodes.
+Proof.
+  intros nodes Hnd. induction cs as [|[[c k]|] cs IH]; intros ex q vis Hcs; cbn [enqueue].
   - reflexivity.
-  - assert (Hcs' : forall c0, In (Some c0) cs -> In c0 nodes).
-    { intros c0 H0. apply Hcs. right. exact H0. }
-    destruct (mem c ex) eqn:Hm.
+  - assert (Hcs' : forall c0 k0, In (Some (c0, k0)) cs -> In c0 nodes).
+    { intros c0 k0 H0. apply (Hcs c0 k0). right. exact H0. }
+    destruct (emem (c, k) ex || mem c vis) eqn:Hb.
     + apply IH. exact Hcs'.
-    + rewrite IH by exact Hcs'. rewrite app_length. simpl.
-      apply mem_false in Hm.
-      assert (Hc : In c nodes). { apply Hcs. left. reflexivity. }
-      pose proof (cnt_cons_in c ex nodes Hnd Hc Hm) as Hk. lia.
-  - apply IH. intros c0 H0. apply Hcs. right. exact H0.
+    + rewrite IH by exact Hcs'. rewrite app_length. cbn [length].
+      apply orb_false_iff in Hb. destruct Hb as [_ Hm]. apply mem_false in Hm.
+      assert (Hc : In c nodes). { apply (Hcs c k). left. reflexivity. }
+      pose proof (cnt_cons_in c vis nodes Hnd Hc Hm) as Hk. lia.
+  - apply IH. intros c0 k0 H0. apply (Hcs c0 k0). right. exact H0.
 Qed.
 
 Section TraverseProofs.
-Variable next : nid -> list (option nid).
+Variable next : nid -> list (option edge).
 Variable acc : nid -> option tid.
 
-(* a path n -> ... -> m along next_functions all of whose nodes (both ends included) avoid excl *)
-Inductive apath (excl : list nid) : nid -> nid -> Prop :=
-| ap_refl : forall n, ~ In n excl -> apath excl n n
-| ap_step : forall n c m, ~ In n excl -> In (Some c) (next n) -> apath excl c m -> apath excl n m.
+(* a path n -> ... -> m along next_functions none of whose EDGES is excluded *)
+Inductive epath (excl : list edge) : nid -> nid -> Prop :=
+| ep_refl : forall n, epath excl n n
+| ep_step : forall n c k m, In (Some (c, k)) (next n) -> ~ In (c, k) excl -> epath excl c m -> epath excl n m.
 
-Lemma apath_snoc : forall E r n c,
-  apath E r n -> In (Some c) (next n) -> ~ In c E -> apath E r c.
+Lemma epath_snoc : forall E r n c k,
+  epath E r n -> In (Some (c, k)) (next n) -> ~ In (c, k) E -> epath E r c.
 Proof.
-  intros E r n c Hp. induction Hp as [n Hn | n d m Hn Hd Hp IH]; intros Hc Hex.
-  - eapply ap_step; [exact Hn | exact Hc | apply ap_refl; exact Hex].
-  - eapply ap_step; [exact Hn | exact Hd | apply IH; assumption].
+  intros E r n c k Hp. induction Hp as [n | n d j m Hd Hnd Hp IH]; intros Hc Hex.
+  - eapply ep_step; [exact Hc | exact Hex | apply ep_refl].
+  - eapply ep_step; [exact Hd | exact Hnd | apply IH; assumption].
 Qed.
 
-Lemma apath_start : forall E n m, apath E n m -> ~ In n E.
-Proof. intros E n m Hp. inversion Hp; assumption. Qed.
-
-(* invariant of the loop w.r.t. the original excluded set E0 and the set V of popped nodes *)
-Definition Inv (roots E0 V queue ex result : list nid) : Prop :=
-  (forall x, In x queue \/ In x V -> exists r, In r roots /\ apath E0 r x) /\
-  (forall x, In x E0 -> In x ex) /\
-  (forall x, In x ex -> In x E0 \/ In x V \/ In x queue) /\
-  (forall v c, In v V -> In (Some c) (next v) -> In c ex) /\
+(* invariant of the loop w.r.t. the excluded edge set E0 and the set V of popped nodes *)
+Definition Inv (roots E0 : list edge) (V queue vis result : list nid) : Prop :=
+  (forall x, In x queue \/ In x V ->
+     exists r k, In (r, k) roots /\ ~ In (r, k) E0 /\ epath E0 r x) /\
+  (forall x, In x vis -> In x V \/ In x queue) /\
+  (forall v c k, In v V -> In (Some (c, k)) (next v) -> ~ In (c, k) E0 -> In c vis) /\
   (forall a, In a result <-> acc a <> None /\ In a V) /\
   NoDup result /\
-  (forall r, In r roots -> ~ In r E0 -> In r V \/ In r queue).
+  (forall r k, In (r, k) roots -> ~ In (r, k) E0 -> In r vis).
 
 Lemma Inv_init : forall roots E0,
-  Inv roots E0 [] (start_queue roots E0) (dedup E0) [].
+  Inv roots E0 [] (start_queue roots E0) (start_queue roots E0) [].
 Proof.
-  intros roots E0. unfold Inv, start_queue.
-  split; [|split; [|split; [|split; [|split; [|split]]]]].
-  - intros x [Hx|[]]. apply filter_In in Hx. destruct Hx as [Hx1 Hx2].
-    apply (proj1 (dedup_In _ _)) in Hx1. apply negb_true_iff in Hx2. apply mem_false in Hx2.
-    exists x. split; [exact Hx1 | apply ap_refl; exact Hx2].
-  - intros x Hx. apply dedup_In. exact Hx.
-  - intros x Hx. left. apply (proj1 (dedup_In _ _)) in Hx. exact Hx.
-  - intros v c [].
+  intros roots E0. unfold Inv.
+  split; [|split; [|split; [|split; [|split]]]].
+  - intros x [Hx|[]]. apply start_queue_In in Hx. destruct Hx as [k [Hr Hn]].
+    exists x, k. split; [exact Hr | split; [exact Hn | apply ep_refl]].
+  - intros x Hx. right. exact Hx.
+  - intros v c k [].
   - intros a. split.
     + intros [].
     + intros [_ []].
   - constructor.
-  - intros r Hr Hex. right. apply filter_In. split.
-    + apply dedup_In. exact Hr.
-    + apply negb_true_iff. apply mem_false. exact Hex.
+  - intros r k Hr Hn. apply start_queue_In. exists k. split; assumption.
 Qed.
 
-Lemma Inv_step : forall roots E0 V n q ex result,
-  Inv roots E0 V (n :: q) ex result ->
+Lemma Inv_step : forall roots E0 V n q vis result,
+  Inv roots E0 V (n :: q) vis result ->
   Inv roots E0 (n :: V)
-      (fst (enqueue (next n) q ex)) (snd (enqueue (next n) q ex))
+      (fst (enqueue (next n) E0 q vis)) (snd (enqueue (next n) E0 q vis))
       (match acc n with
        | Some _ => if mem n result then result else n :: result
        | None => result
        end).
 Proof.
-  intros roots E0 V n q ex result (H1 & H2 & H3 & H4 & H5 & H6 & H7).
-  unfold Inv. split; [|split; [|split; [|split; [|split; [|split]]]]].
+  intros roots E0 V n q vis result (H1 & H2 & H3 & H4 & H5 & H6).
+  unfold Inv. split; [|split; [|split; [|split; [|split]]]].
   - intros x [Hx|[Hx|Hx]].
-    + apply enqueue_queue in Hx. destruct Hx as [Hx|[Hc Hex]].
+    + apply enqueue_queue in Hx. destruct Hx as [Hx|[_ [k [Hc Hex]]]].
       * apply H1. left. right. exact Hx.
-      * destruct (H1 n (or_introl (or_introl eq_refl))) as [r [Hr Hp]].
-        exists r. split; [exact Hr|].
-        eapply apath_snoc; [exact Hp | exact Hc |].
-        intro HE. apply Hex. apply H2. exact HE.
+      * destruct (H1 n (or_introl (or_introl eq_refl))) as [r [j [Hr [Hrn Hp]]]].
+        exists r, j. split; [exact Hr | split; [exact Hrn|]].
+        eapply epath_snoc; [exact Hp | exact Hc | exact Hex].
     + subst x. apply H1. left. left. reflexivity.
     + apply H1. right. exact Hx.
-  - intros x Hx. apply enqueue_excl. left. apply H2. exact Hx.
-  - intros x Hx. apply enqueue_excl in Hx.
-    assert (Hold : In x ex -> In x E0 \/ In x (n :: V) \/ In x (fst (enqueue (next n) q ex))).
-    { intro Hx'. destruct (H3 x Hx') as [H|[H|[H|H]]].
-      - left. exact H.
-      - right. left. right. exact H.
-      - right. left. left. exact H.
-      - right. right. apply enqueue_queue. left. exact H. }
-    destruct Hx as [Hx|Hx].
+  - intros x Hx. apply enqueue_visited in Hx.
+    assert (Hold : In x vis -> In x (n :: V) \/ In x (fst (enqueue (next n) E0 q vis))).
+    { intro Hx'. destruct (H2 x Hx') as [H|[H|H]].
+      - left. right. exact H.
+      - left. left. exact H.
+      - right. apply enqueue_queue. left. exact H. }
+    destruct Hx as [Hx|[k [Hc Hex]]].
     + apply Hold. exact Hx.
-    + destruct (in_dec Nat.eq_dec x ex) as [Hi|Hi].
+    + destruct (in_dec Nat.eq_dec x vis) as [Hi|Hi].
       * apply Hold. exact Hi.
-      * right. right. apply enqueue_queue. right. split; assumption.
-  - intros v c [Hv|Hv] Hc.
-    + subst v. apply enqueue_excl. right. exact Hc.
-    + apply enqueue_excl. left. eapply H4; eassumption.
+      * right. apply enqueue_queue. right. split; [exact Hi|].
+        exists k. split; assumption.
+  - intros v c k [Hv|Hv] Hc Hex.
+    + subst v. apply enqueue_visited. right. exists k. split; assumption.
+    + apply enqueue_visited. left. eapply H3; eassumption.
   - intros a. destruct (acc n) as [t|] eqn:Hacc.
     + destruct (mem n result) eqn:Hm.
-      * apply mem_In in Hm. rewrite H5. split.
+      * apply mem_In in Hm. rewrite H4. split.
         -- intros [Ha Hv]. split; [exact Ha | right; exact Hv].
         -- intros [Ha [Hv|Hv]].
-           ++ subst a. apply H5. exact Hm.
+           ++ subst a. apply H4. exact Hm.
            ++ split; assumption.
-      * simpl. rewrite H5. split.
+      * cbn [In]. rewrite H4. split.
         -- intros [Ha|[Ha Hv]].
            ++ subst a. split; [congruence | left; reflexivity].
            ++ split; [exact Ha | right; exact Hv].
         -- intros [Ha [Hv|Hv]].
            ++ left. exact Hv.
            ++ right. split; assumption.
-    + rewrite H5. split.
+    + rewrite H4. split.
       * intros [Ha Hv]. split; [exact Ha | right; exact Hv].
       * intros [Ha [Hv|Hv]].
         -- subst a. congruence.
         -- split; assumption.
-  - destruct (acc n) as [t|]; [|exact H6].
-    destruct (mem n result) eqn:Hm; [exact H6|].
+  - destruct (acc n) as [t|]; [|exact H5].
+    destruct (mem n result) eqn:Hm; [exact H5|].
     apply mem_false in Hm. constructor; assumption.
-  - intros r Hr Hex. destruct (H7 r Hr Hex) as [H|[H|H]].
-    + left. right. exact H.
-    + left. left. exact H.
-    + right. apply enqueue_queue. left. exact H.
+  - intros r k Hr Hex. apply enqueue_visited. left. exact (H6 r k Hr Hex).
 Qed.
 
-Lemma Inv_final : forall roots E0 V ex res,
-  Inv roots E0 V [] ex res ->
-  (forall a, In a res <-> (acc a <> None /\ exists r, In r roots /\ apath E0 r a)) /\ NoDup res.
+Lemma Inv_final : forall roots E0 V vis res,
+  Inv roots E0 V [] vis res ->
+  (forall a, In a res <->
+     (acc a <> None /\ exists r k, In (r, k) roots /\ ~ In (r, k) E0 /\ epath E0 r a)) /\
+  NoDup res.
 Proof.
-  intros roots E0 V ex res (H1 & H2 & H3 & H4 & H5 & H6 & H7).
-  split; [|exact H6].
-  assert (Hclosed : forall n m, apath E0 n m -> In n V -> In m V).
-  { intros n m Hp. induction Hp as [n Hn | n c m Hn Hc Hp IH]; intros Hv.
+  intros roots E0 V vis res (H1 & H2 & H3 & H4 & H5 & H6).
+  split; [|exact H5].
+  assert (Hvis : forall x, In x vis -> In x V).
+  { intros x Hx. destruct (H2 x Hx) as [H|[]]. exact H. }
+  assert (Hclosed : forall n m, epath E0 n m -> In n V -> In m V).
+  { intros n m Hp. induction Hp as [n | n c k m Hc Hex Hp IH]; intros Hv.
     - exact Hv.
-    - apply IH. pose proof (H4 n c Hv Hc) as Hcex.
-      destruct (H3 c Hcex) as [H|[H|[]]].
-      + exfalso. exact (apath_start E0 c m Hp H).
-      + exact H. }
-  intros a. rewrite H5. split.
+    - apply IH. apply Hvis. exact (H3 n c k Hv Hc Hex). }
+  intros a. rewrite H4. split.
   - intros [Ha Hv]. split; [exact Ha|]. apply H1. right. exact Hv.
-  - intros [Ha [r [Hr Hp]]]. split; [exact Ha|].
-    apply (Hclosed r a Hp).
-    destruct (H7 r Hr (apath_start E0 r a Hp)) as [H|[]]. exact H.
+  - intros [Ha [r [k [Hr [Hex Hp]]]]]. split; [exact Ha|].
+    apply (Hclosed r a Hp). apply Hvis. exact (H6 r k Hr Hex).
 Qed.
 
-Lemma bfs_inv : forall roots E0 fuel V queue ex result res,
-  Inv roots E0 V queue ex result ->
-  bfs next acc fuel queue ex result = Some res ->
-  (forall a, In a res <-> (acc a <> None /\ exists r, In r roots /\ apath E0 r a)) /\ NoDup res.
+Lemma bfs_inv : forall roots E0 fuel V queue vis result res,
+  Inv roots E0 V queue vis result ->
+  bfs next acc fuel E0 queue vis result = Some res ->
+  (forall a, In a res <->
+     (acc a <> None /\ exists r k, In (r, k) roots /\ ~ In (r, k) E0 /\ epath E0 r a)) /\
+  NoDup res.
 Proof.
-  intros roots E0. induction fuel as [|f IH]; intros V queue ex result res HI Hb.
-  - simpl in Hb. discriminate Hb.
-  - simpl in Hb. destruct queue as [|n q].
+  intros roots E0. induction fuel as [|f IH]; intros V queue vis result res HI Hb.
+  - cbn [bfs] in Hb. discriminate Hb.
+  - cbn [bfs] in Hb. destruct queue as [|n q].
     + injection Hb as Hb. subst res. eapply Inv_final. exact HI.
     + eapply IH; [|exact Hb]. apply Inv_step. exact HI.
 Qed.
 
-(* soundness and completeness of the walk: whenever it terminates (does not run out of fuel),
-   the result is exactly the set of AccumulateGrad nodes reachable from a non-excluded root
-   along paths that avoid the excluded nodes.  Holds for every finite or infinite graph, cyclic
-   or not. *)
+(* soundness and completeness: whenever the walk terminates, the result is exactly the set of
+   AccumulateGrad nodes reachable from a non-excluded root edge along paths whose edges are all
+   non-excluded.  Any graph, cyclic or not. *)
 Lemma bfs_sound_complete : forall fuel roots excl res,
   descendant_accumulate_grads next acc fuel roots excl = Some res ->
-  forall a, In a res <-> (acc a <> None /\ exists r, In r roots /\ apath excl r a).
+  forall a, In a res <->
+    (acc a <> None /\ exists r k, In (r, k) roots /\ ~ In (r, k) excl /\ epath excl r a).
 Proof.
   intros fuel roots excl res H. unfold descendant_accumulate_grads in H.
   exact (proj1 (bfs_inv roots excl fuel [] _ _ _ res (Inv_init roots excl) H)).
@@ -319,45 +369,42 @@ Qed.
 
 Lemma bfs_fuel_gen : forall nodes,
   NoDup nodes ->
-  (forall n c, In n nodes -> In (Some c) (next n) -> In c nodes) ->
-  forall fuel queue ex result,
+  (forall n c k, In n nodes -> In (Some (c, k)) (next n) -> In c nodes) ->
+  forall fuel ex queue vis result,
   (forall x, In x queue -> In x nodes) ->
-  length queue + cnt ex nodes < fuel ->
-  bfs next acc fuel queue ex result <> None.
+  length queue + cnt vis nodes < fuel ->
+  bfs next acc fuel ex queue vis result <> None.
 Proof.
-  intros nodes Hnd Hcl. induction fuel as [|f IH]; intros queue ex result Hq Hlt.
+  intros nodes Hnd Hcl. induction fuel as [|f IH]; intros ex queue vis result Hq Hlt.
   - lia.
-  - simpl. destruct queue as [|n q].
+  - cbn [bfs]. destruct queue as [|n q].
     + discriminate.
     + assert (Hn : In n nodes). { apply Hq. left. reflexivity. }
-      assert (Hcs : forall c, In (Some c) (next n) -> In c nodes).
-      { intros c Hc. eapply Hcl; eassumption. }
+      assert (Hcs : forall c k, In (Some (c, k)) (next n) -> In c nodes).
+      { intros c k Hc. eapply Hcl; eassumption. }
       apply IH.
-      * intros x Hx. apply enqueue_queue in Hx. destruct Hx as [Hx|[Hx _]].
+      * intros x Hx. apply enqueue_queue in Hx. destruct Hx as [Hx|[_ [k [Hx _]]]].
         -- apply Hq. right. exact Hx.
-        -- apply Hcs. exact Hx.
-      * rewrite (enqueue_measure nodes Hnd (next n) q ex Hcs). simpl in Hlt. lia.
+        -- apply (Hcs x k). exact Hx.
+      * rewrite (enqueue_measure nodes Hnd (next n) ex q vis Hcs).
+        cbn [length] in Hlt. lia.
 Qed.
 
-(* the out-of-fuel branch is unreachable for a finite graph: if all nodes that can ever be
-   enqueued lie in a duplicate-free list [nodes], fuel > |nodes| + |roots| suffices *)
+(* the out-of-fuel branch is unreachable for a finite graph: every node enters the queue at most once *)
 Lemma bfs_fuel_suffices : forall nodes fuel roots excl,
   NoDup nodes ->
-  (forall r, In r roots -> In r nodes) ->
-  (forall n c, In n nodes -> In (Some c) (next n) -> In c nodes) ->
-  length nodes + length roots < fuel ->
+  (forall r k, In (r, k) roots -> In r nodes) ->
+  (forall n c k, In n nodes -> In (Some (c, k)) (next n) -> In c nodes) ->
+  length nodes < fuel ->
   descendant_accumulate_grads next acc fuel roots excl <> None.
 Proof.
   intros nodes fuel roots excl Hnd Hr Hcl Hlt. unfold descendant_accumulate_grads.
+  assert (Hsub : forall x, In x (start_queue roots excl) -> In x nodes).
+  { intros x Hx. apply start_queue_In in Hx. destruct Hx as [k [Hx _]].
+    exact (Hr x k Hx). }
   apply (bfs_fuel_gen nodes Hnd Hcl).
-  - intros x Hx. unfold start_queue in Hx. apply filter_In in Hx. destruct Hx as [Hx _].
-    apply (proj1 (dedup_In _ _)) in Hx. apply Hr. exact Hx.
-  - assert (H1 : length (start_queue roots excl) <= length roots).
-    { unfold start_queue.
-      eapply Nat.le_trans; [apply filter_length_le' | apply dedup_length_le]. }
-    assert (H2 : cnt (dedup excl) nodes <= length nodes).
-    { unfold cnt. apply filter_length_le'. }
-    lia.
+  - exact Hsub.
+  - rewrite (cnt_init nodes Hnd _ (start_queue_NoDup roots excl) Hsub). exact Hlt.
 Qed.
 End TraverseProofs.
 
